@@ -7,8 +7,9 @@
    - [dest_old c s0 sched s]: the destination is bound in [s] exactly as at entry and its inode
      (bytes, durable bytes, permission bits) is untouched -- or it was absent at entry and holds
      exactly what a scheduled AAppear put there;
-   - [olds_same s0 s]: no inode that existed at entry has been modified (stale part file,
-     bystanders, old destination);
+   - [olds_same c s0 s]: no inode that existed at entry has been modified (stale part file,
+     bystanders, old destination) and every name of the directory other than destination and
+     part file is bound exactly as at entry;
    - [OpenFact c s0]: overwrite_part is set or no part file existed at entry;
    - [perms_ok_prop c s0 sched umask m]: m is the explicitly requested mode, else the mode of the
      destination at entry, else 0o666 & ~umask (or the mode of a destination that appeared meanwhile);
@@ -18,7 +19,7 @@
      part file, and rm_part_on_exc is off, or it is gone, or an unlink of it failed;
    - [link_then_unlink_failed tr]: guard of the open finding C05-link-unlink (= Check known5). *)
 From Boltons Require Import Lib.Prelude Model.C04_Model Spec.C04_Spec Check.C04_Check Spec.C05_Spec Check.C05_Check
-     Proofs.C04_Inv Proofs.C04_Examples Proofs.C05_Basic Proofs.C05_Inv Proofs.C05_Live Proofs.C05_Retry Proofs.C05_Examples.
+     Proofs.C04_Inv Proofs.C04_Examples Proofs.C05_Basic Proofs.C05_Inv Proofs.C05_Live Proofs.C05_Retry Proofs.C05_Intrude Proofs.C05_Transfer Proofs.C05_Examples.
 Open Scope N_scope.
 
 (* overwrite=False and the destination exists at entry: the caller gets EEXIST before any primitive
@@ -61,9 +62,9 @@ Theorem C05_fault_partial :
         content_power (w_fs w) (c_dest c) = Some (new_content ops) /\
         f_dir (w_fs w) (c_part c) = None /\
         (exists m, mode_of (w_fs w) (c_dest c) = Some m /\ perms_ok_prop c s0 sched umask m) /\
-        OpenFact c s0 /\ olds_same s0 (w_fs w)
+        OpenFact c s0 /\ olds_same c s0 (w_fs w)
     | Exc _ =>
-        olds_same s0 (w_fs w) /\
+        olds_same c s0 (w_fs w) /\
         FailCase c s0 (w_fs w) (w_trace w) /\
         (link_then_unlink_failed (w_trace w) = false -> dest_old c s0 sched (w_fs w))
     end.
@@ -128,6 +129,33 @@ Theorem C05_retry_after_failure :
                f_dir (w_fs w') (c_part c) = None.
 Proof. exact retry_after_failure_lemma. Qed.
 Print Assumptions C05_retry_after_failure.
+
+(* no-clobber: with overwrite=False, a save that returns normally was never overtaken by another
+   process creating the destination (had it appeared before the link, the link would have failed) *)
+Theorem C05_noclobber :
+  forall c ops raises s0 umask crash sched x w,
+    c_dest c <> c_part c -> c_overwrite c = false ->
+    run_save c ops raises s0 umask crash sched = (Val x, w) -> w_intruded w = false.
+Proof. exact no_intrusion_lemma. Qed.
+Print Assumptions C05_noclobber.
+
+(* The transfer principle of the C05 correspondence check, binding the theorems above to the boolean
+   Spec: on every case for which the model reproduces everything observed on the implementation (trace,
+   exception, directory bytes and modes after the run and after the retry, and whether the scheduled
+   other process really got in: agree5 = true), outside the guard of the open finding, the real
+   observations satisfy Spec/C05_Spec.c05_spec (destination content+mode unchanged on failure, clean-up,
+   stale part file respected, refusal, other entries unchanged, retry, completed content and permissions,
+   no-clobber) and C04's Spec: holds5 = true.
+   PARTIAL: valid arguments only (c_fdopen_invalid = false: the unbuffered-text-mode configuration, whose
+   clauses are evaluated on the observations only). *)
+Theorem C05_agree_implies_holds_partial :
+  forall c : c05_case,
+    c_dest (k_cfg (k5_base c)) <> c_part (k_cfg (k5_base c)) ->
+    same_dir (c_part (k_cfg (k5_base c))) = true ->
+    c_fdopen_invalid (k_cfg (k5_base c)) = false ->
+    agree5 c = true -> known5 c = false -> holds5 c = true.
+Proof. exact agree5_implies_holds5. Qed.
+Print Assumptions C05_agree_implies_holds_partial.
 
 (* the hypotheses are inhabited by non-trivial runs *)
 Example C05_ex_fault_flush :
